@@ -2,12 +2,13 @@
 (* The C29 clauses decided on what a client can observe, independent of how the code is structured (this decides
    VIOLATION; ShmXferTrace decides drift).  One observation o per executed history:
      shm, inl   delivered history (result / data / error / stop tokens = digests of schema + rows + application
-                metadata, provenance keys ignored, DESIGN 7a) over the shm-pipe and over a plain pipe
+                metadata, provenance keys ignored, DESIGN 7a; an exception escaping the client or a dead server is a
+                token too) over the shm-pipe and over a plain pipe
      calls      after every completed call (and every between-call release): nlive = allocation count read from the
                 segment header, nheld = batches delivered through shm that the client still holds unreleased,
                 tab = the allocation table <<off, len>>
      heldchk    for every batch the client held: digest when delivered, digest when finally released / at the end
-     errs       exceptions raised by release() or escaping the client
+     relerrs    exceptions raised by release(): the region a batch lived in was no longer allocated
    case c = [cap |-> bytes in the data region].  Conforms = names of the clauses that are false.                    *)
 EXTENDS Integers, Sequences, FiniteSets, TLC
 
@@ -17,13 +18,12 @@ LeakyCalls(o) == {i \in 1..Len(o.calls) : Leak(o, i) > Leak(o, i - 1) /\ Leak(o,
 TabOK(c, t) == \A i \in 1..Len(t) : /\ t[i][1] >= 0 /\ t[i][2] > 0 /\ t[i][1] + t[i][2] <= c.cap
                                     /\ \A j \in 1..Len(t) : i = j \/ t[i][1] + t[i][2] <= t[j][1] \/ t[j][1] + t[j][2] <= t[i][1]
 Transparent(c, o) == o.shm = o.inl
-NoReuse(c, o) == /\ \A i \in 1..Len(o.heldchk) : o.heldchk[i].at = o.heldchk[i].end     \* a held batch never changes
+NoReuse(c, o) == /\ o.relerrs = <<>>                                                    \* nobody else freed it
+                 /\ \A i \in 1..Len(o.heldchk) : o.heldchk[i].at = o.heldchk[i].end     \* a held batch never changes
                  /\ \A i \in 1..Len(o.calls) : /\ TabOK(c, o.calls[i].tab)             \* regions never overlap
                                                /\ o.calls[i].nlive >= o.calls[i].nheld \* a held region is never freed
                                                /\ Len(o.calls[i].tab) = o.calls[i].nlive
-NoError(c, o) == o.errs = <<>>
 Conforms(c, o) == (IF Transparent(c, o) THEN {} ELSE {"Transparent"})
                   \cup {"NoLeak@" \o ToString(i) : i \in LeakyCalls(o)}
                   \cup (IF NoReuse(c, o) THEN {} ELSE {"NoReuse"})
-                  \cup (IF NoError(c, o) THEN {} ELSE {"NoError"})
 ===================================================================================
